@@ -325,77 +325,176 @@ func plainEquals(a, b *Item) bool { // StackItem.Equals(other) without limits, n
 	return a == b // Buffer, Array, Map (and Struct when reached through here: reference)
 }
 
-// structWeight estimates the work of a struct comparison / clone; used to stay away from the budget corners.
-func structWeight(it *Item, acc *int) {
-	if *acc > 1<<20 {
-		return
-	}
-	*acc++
-	switch it.K {
-	case ByteString:
-		*acc += len(it.Bytes)
-	case Struct:
-		for _, c := range it.Elems {
-			structWeight(c, acc)
-		}
-	}
+// eqOutcome is the outcome of a struct comparison: a boolean, or a fault (budget exceeded).
+type eqOutcome struct {
+	eq    bool
+	fault string
 }
 
-func structEquals(x, other *Item) bool {
+func outcomeOf(f func() bool) (out eqOutcome) {
+	defer func() {
+		if r := recover(); r != nil {
+			ft, ok := r.(fault)
+			if !ok {
+				panic(r)
+			}
+			out = eqOutcome{fault: ft.msg}
+		}
+	}()
+	return eqOutcome{eq: f()}
+}
+
+// specStructEquals is Struct.Equals(other, limits) of the reference, literally: two explicit stacks (so the LAST field is
+// compared first), one item budget of MaxStackSize pops that includes the root pair, one byte budget of MaxComparableSize
+// for the whole comparison that is charged 1 for every non-ByteString pair (the root included) and max(len) for every
+// ByteString pair (also when both sides are the same object: the identity shortcut comes after the charge).
+// It also returns what is left of both budgets.
+func specStructEquals(x, other *Item) (out eqOutcome, sizeLeft, countLeft int) {
+	count := MaxStackSize
+	size := MaxComparableSize
+	out = outcomeOf(func() bool {
+		s1, s2 := []*Item{x}, []*Item{other}
+		for len(s1) > 0 {
+			if count == 0 {
+				failf("too many struct items to compare")
+			}
+			count--
+			a, b := s1[len(s1)-1], s2[len(s2)-1]
+			s1, s2 = s1[:len(s1)-1], s2[:len(s2)-1]
+			unsureIf(a.K == Opaque || b.K == Opaque, "engine-message-inspected")
+			if a.K == ByteString {
+				if !bsEquals(a, b, &size) {
+					return false
+				}
+				continue
+			}
+			if size == 0 {
+				failf("operand exceeds the maximum comparable size")
+			}
+			size--
+			if a.K == Struct {
+				if a == b {
+					continue
+				}
+				if b.K != Struct || len(a.Elems) != len(b.Elems) {
+					return false
+				}
+				s1 = append(s1, a.Elems...)
+				s2 = append(s2, b.Elems...)
+			} else if !plainEquals(a, b) {
+				return false
+			}
+		}
+		return true
+	})
+	return out, size, count
+}
+
+// altStructEquals evaluates the same comparison with a different bookkeeping. It is NEVER used as an expected result: it
+// only delimits the known-deviation classes "dev:struct-equals-*" (cases where the code under test is known to keep its
+// books differently from the reference, reported as candidate defects), so that everything outside them is compared
+// exactly. goAccounting=false: the reference budgets, but fields visited first-to-last (recursive). goAccounting=true:
+// additionally the root pair is free, the byte budget restarts for every nested struct, and the item budget allows
+// MaxStackSize-2 field visits.
+func altStructEquals(x, other *Item, goAccounting bool) eqOutcome {
+	count := MaxStackSize
+	if goAccounting {
+		count = MaxStackSize - 1
+	}
+	var walk func(a, b *Item, size *int) bool
+	walk = func(a, b *Item, size *int) bool { // a, b structs
+		if a == b {
+			return true
+		}
+		if len(a.Elems) != len(b.Elems) {
+			return false
+		}
+		if goAccounting {
+			fresh := MaxComparableSize
+			size = &fresh
+		}
+		for j := range a.Elems {
+			ca, cb := a.Elems[j], b.Elems[j]
+			if goAccounting {
+				count--
+				if count == 0 {
+					failf("too many struct items to compare")
+				}
+			} else {
+				if count == 0 {
+					failf("too many struct items to compare")
+				}
+				count--
+			}
+			unsureIf(ca.K == Opaque || cb.K == Opaque, "engine-message-inspected")
+			if ca.K == ByteString {
+				if !bsEquals(ca, cb, size) {
+					return false
+				}
+				continue
+			}
+			if *size == 0 {
+				failf("operand exceeds the maximum comparable size")
+			}
+			*size--
+			if ca.K == Struct {
+				if cb.K != Struct {
+					return false
+				}
+				if !walk(ca, cb, size) {
+					return false
+				}
+			} else if !plainEquals(ca, cb) {
+				return false
+			}
+		}
+		return true
+	}
+	return outcomeOf(func() bool {
+		size := MaxComparableSize
+		if !goAccounting {
+			count-- // the root pair
+			size--
+		}
+		return walk(x, other, &size)
+	})
+}
+
+func (e *engine) structEquals(x, other *Item) bool {
 	if other.K != Struct {
 		return false
 	}
-	w := 0
-	structWeight(x, &w)
-	structWeight(other, &w)
-	// budgets of the reference: 2048 compared items, 65536 compared bytes; evaluation order decides fault-vs-false
-	// only near them, which is outside the domain of this specification.
-	unsureIf(w > 1500, "struct-equals-budget")
-	s1, s2 := []*Item{x}, []*Item{other}
-	count := MaxStackSize
-	size := MaxComparableSize
-	for len(s1) > 0 {
-		if count == 0 {
-			failf("too many struct items to compare")
-		}
-		count--
-		a, b := s1[len(s1)-1], s2[len(s2)-1]
-		s1, s2 = s1[:len(s1)-1], s2[:len(s2)-1]
-		unsureIf(a.K == Opaque || b.K == Opaque, "engine-message-inspected")
-		if a.K == ByteString {
-			if !bsEquals(a, b, &size) {
-				return false
-			}
-			continue
-		}
-		if size == 0 {
-			failf("operand exceeds the maximum comparable size")
-		}
-		size--
-		if a.K == Struct {
-			if a == b {
-				continue
-			}
-			if b.K != Struct || len(a.Elems) != len(b.Elems) {
-				return false
-			}
-			s1 = append(s1, a.Elems...)
-			s2 = append(s2, b.Elems...)
-		} else if !plainEquals(a, b) {
-			return false
+	spec, sizeLeft, countLeft := specStructEquals(x, other)
+	differs := func(a, b eqOutcome) bool {
+		return (a.fault == "") != (b.fault == "") || (a.fault == "" && a.eq != b.eq)
+	}
+	if differs(altStructEquals(x, other, true), spec) {
+		if differs(altStructEquals(x, other, false), spec) {
+			e.tag("dev:struct-equals-traversal-order")
+		} else {
+			e.tag("dev:struct-equals-budget-accounting")
 		}
 	}
-	return true
+	switch {
+	case spec.fault != "":
+		e.tag("struct-eq-budget-fault")
+		failf("%s", spec.fault)
+	case sizeLeft <= 2 || countLeft <= 2:
+		e.tag("struct-eq-halt-at-budget-edge")
+	case sizeLeft < MaxComparableSize/2 || countLeft < MaxStackSize/2:
+		e.tag("struct-eq-halt-past-half-budget")
+	}
+	return spec.eq
 }
 
-func itemEquals(x1, x2 *Item) bool {
+func (e *engine) itemEquals(x1, x2 *Item) bool {
 	unsureIf(x1.K == Opaque || x2.K == Opaque, "engine-message-inspected")
 	switch x1.K {
 	case ByteString:
 		limit := MaxComparableSize
 		return bsEquals(x1, x2, &limit)
 	case Struct:
-		return structEquals(x1, x2)
+		return e.structEquals(x1, x2)
 	}
 	return plainEquals(x1, x2)
 }
@@ -1085,7 +1184,7 @@ func (e *engine) exec(f *frame, op opcode.Opcode, arg []byte) {
 	case opcode.EQUAL, opcode.NOTEQUAL:
 		x2 := e.pop()
 		x1 := e.pop()
-		e.pushBool(itemEquals(x1, x2) == (op == opcode.EQUAL))
+		e.pushBool(e.itemEquals(x1, x2) == (op == opcode.EQUAL))
 
 	// ---- arithmetic
 	case opcode.SIGN:
